@@ -6,6 +6,8 @@ import (
 	"context"
 	"net"
 
+	"github.com/PelicanPlatform/classad/classad"
+
 	"github.com/bbockelm/cedar/stream"
 )
 
@@ -19,3 +21,35 @@ func VerifAcceptReversed(ctx context.Context, ln net.Listener, connectID string)
 func VerifProxyRequestOnStream(ctx context.Context, brokerConn net.Conn, s *stream.Stream, ccbid, connectID string) (net.Conn, error) {
 	return proxyRequestOnStream(ctx, brokerConn, s, ccbid, "", connectID, "", "verif")
 }
+
+// ---- C17 S4: one broker registration with its stream already established ----
+
+// VerifBrokerReg wraps a brokerReg (inside a real Listener) whose stream was
+// established by the harness, so that the functions that share it - the
+// heartbeat's and the request handlers' writeToBroker, serve's read, closeConn,
+// and the Listener's status getters - can be driven from scheduler threads.
+type VerifBrokerReg struct {
+	L *Listener
+	r *brokerReg
+}
+
+func VerifNewBrokerReg(s *stream.Stream, conn net.Conn, contact string, streaming bool) *VerifBrokerReg {
+	l := NewListener(ListenerConfig{BrokerAddr: "10.2.2.2:9618", Name: "verif"})
+	r := l.regs[0]
+	r.mu.Lock()
+	r.stream, r.conn, r.contact, r.cookie, r.brokerStreaming, r.registered = s, conn, contact, "cookie", streaming, true
+	r.mu.Unlock()
+	return &VerifBrokerReg{L: l, r: r}
+}
+
+func (v *VerifBrokerReg) WriteToBroker(ctx context.Context, ad *classad.ClassAd) error {
+	return v.r.writeToBroker(ctx, ad)
+}
+
+// ServeReadOne is one iteration of serve's loop: read one control ad from the
+// registration's stream (serve reads r.stream without the lock, as here).
+func (v *VerifBrokerReg) ServeReadOne(ctx context.Context) (*classad.ClassAd, error) {
+	return ReadControlAd(ctx, v.r.stream)
+}
+
+func (v *VerifBrokerReg) CloseConn() { v.r.closeConn() }
